@@ -61,6 +61,11 @@ private theorem cc_revert {c t n} {s : Ctx} (h : CC c t n s) : CC c t n (revert 
   · exact h1
   · exact presCC_compileAll _ h1
 
+private theorem cc_restore {c t n} {s s1 : Ctx} {op : Op} (h : CC c t n s1) : CC c t n (restoreFeats s op s1) := by
+  rcases restoreFeats_cases s op s1 with e | ⟨k, m0, _, _, e⟩ <;> rw [e]
+  · exact h
+  · exact h.upd k _
+
 /-- **Counter arithmetic of every API call**, successful or not: the value afterwards is the value before plus the number
     `k` of increments the call performed (one per module added to the context, one per `lys_compile`), modulo 2^16; and
     every module the call added is counted. -/
@@ -79,7 +84,7 @@ theorem change_count_value (s : Ctx) (op : Op) :
         cases op <;> dsimp only <;> (try split) <;> first | exact hf | exact cc_erase hf
       · next e s1 hfw =>
         rw [hfw] at hf
-        cases op <;> dsimp only <;> first | exact hf | exact cc_erase (cc_revert hf) | exact (cc_erase (cc_revert hf)).same rfl rfl rfl
+        cases op <;> dsimp only <;> first | exact hf | exact cc_erase (cc_revert hf) | exact cc_erase (cc_revert (cc_restore hf)) | exact (cc_erase (cc_revert hf)).same rfl rfl rfl
   exact ⟨key.value, key.mono, key.added⟩
 
 /-- so: a call that performed `0 < k < 2^16` increments leaves a different counter value, … -/
